@@ -14,7 +14,7 @@ Formats (fields inside one argument are separated by `:`; `_` = empty list):
   `(i, j)`; pairs the implementation never queried may be left `0`: every scan of the model is
   existential), Auer's centres and `beta_t` width rows (row `i` = design `i` in both), the acquisition picks
   `d,o;d,o;…`, VOGP_AD's refinement test `0/1`, DecoupledGP's new Pareto set.
-* `<out>`   = `done:req:refined:exceeds`, `req` = `d` or `d.o` entries separated by `,`,
+* `<out>`   = `done:req:refined:exceeds[:cap]` (`cap` is printed by `run`, not read by `spec`), `req` = `d` or `d.o` entries separated by `,`,
   `refined` a node or `-`.
 
 Operations:
@@ -132,7 +132,8 @@ def fmtState (s : State) : String :=
 
 def fmtOut (o : Out) : String :=
   ":".intercalate [fmtBool o.done, fmtList "," fmtReq o.req,
-    (match o.refined with | none => "-" | some d => toString d), fmtBool o.batchExceeds]
+    (match o.refined with | none => "-" | some d => toString d), fmtBool o.batchExceeds,
+    toString o.cap]
 
 /-- states and outputs after every call -/
 def trajOut (c : Cfg) : State → List Env → List String
